@@ -19,6 +19,22 @@ CLAIMED = {
    text="For all 55 registered operators (names/arity read from /repo at run time), every input count 0..max+2, nil at every subset of optional positions, and lists passed with spare capacity, the element type at each position is ONE symbolic variable over the 14-type universe, so a single symbolic run per case decides all 14^k type combinations: accepted iff arity and per-position constraints (and PRelu's equality) allow, never a panic, padded with absent inputs, tensors passed through by identity. Registry independence is decided by fingerprinting operator state before/after Init of another instance; unknown names use an opaque string unequal to every literal.",
    note="Oracle is relative to each operator's own declared min/max/type constraints, as the property states. Tensors are shape-only with symbolic dtype." + NOTE_COMMON,
    design="DESIGN.md section 4, C15"),
+ "C14": dict(
+   text="Both broadcast helpers are executed symbolically on ALL ordered pairs of shapes of rank 0..3 over extents {1,2} (thorough: rank 0..4, extents {1,2,3}) plus listed larger pairs, with every element a solver variable of rotating element type: compatibility verdict, result shapes, element placement (stretched axes pinned to 0), unidirectional 'first operand as is', and that the sources are neither modified (snapshot of shape/strides/dtype/elements) nor written to (frame monitor) are decided per pair for all values.",
+   note="The 'random larger shapes' clause is replaced by the bounded-exhaustive set; tensor.Repeat/Reshape/Clone are executed by the real gorgonia on term-id tensors." + NOTE_COMMON,
+   design="DESIGN.md section 4, C14"),
+ "C03": dict(
+   text="The 12 operators are driven through GetOperator/Init/ValidateInputs/Apply on every ordered shape pair of rank 0..2 over {1,2} (thorough rank 0..3 over {1,2,3}) plus rank-3/4 and incompatible-by-a-multiple pairs; every element is a solver variable under the IEEE-754 FloatingPoint theory (NaN, infinities, signed zeros) or a bit-vector (wrap-around, truncating division), so operand order, broadcasting direction, result dtype and each element are decided for all values; one tensor wired to both inputs is included. gorgonia's kernels are term builders whose shape/dtype/error behaviour comes from running the real operation on twin tensors (the float division kernel is selected by probing the real call).",
+   note="Integer division by zero assumed away; string/complex types outside. One known finding (float Div by zero is not IEEE in gorgonia's contiguous kernel) is listed in known_findings.json." + NOTE_COMMON,
+   design="DESIGN.md section 4, C03"),
+ "C07": dict(
+   text="Reshape/Flatten/Squeeze/Unsqueeze/Shape through the public operator path: requested shape entries / axes are solver variables. Phase B: entries range over a finite domain around the valid range and the solver enumerates every feasible value at the gorgonia boundary; each resulting request is compared with the ONNX rule (shape, same elements in row-major order with symbolic element values, error for every invalid request, never a panic, inputs unmodified). Phase A: entries range over all of int64 up to the first gorgonia call, which finds crashes in gonnx's own index arithmetic for any single value.",
+   note="Requests with more than 3 entries, rank-0 shape/axes tensors and extents > 3 are outside." + NOTE_COMMON,
+   design="DESIGN.md section 4, C07"),
+ "C08": dict(
+   text="Transpose/Concat/Slice/Gather/Expand through the public operator path with perm entries, axes, starts/ends/steps (incl. INT64 extremes) and every gather index as solver variables over stated finite domains and all data elements symbolic; results are compared with the ONNX index formulas written as plain loops: result-or-error for implementable requests, error for invalid ones, never a panic, inputs unmodified.",
+   note="Two known findings (Slice drops extent-1 axes; steps other than 1) are listed in known_findings.json; repeated Slice axes (undefined in ONNX) and empty results are outside." + NOTE_COMMON,
+   design="DESIGN.md section 4, C08"),
 }
 NA_REASON = "check not built yet (engine under construction in this session); will be claimed once its bounds run clean"
 checks = []
